@@ -1338,8 +1338,14 @@ def out_scenario(c, k):
     v = ["colvar {", "  name v0", "  lowerBoundary -16.0", "  upperBoundary 16.0", "  width 1.0", "  corrFunc on", "  corrFuncType coordinate",
          "  corrFuncLength 1", "  corrFuncStride 1", "  distanceZ {", "    main { atomNumbers 1 }", "    ref { dummyAtom (0,0,0) }", "    axis (0,0,1)", "  }", "}"]
     bl = []
+    if c.get("abf"):
+        v = v[:-6] + ["  distanceZ {", "    main { atomNumbers 1 }", "    ref { dummyAtom (0,0,0) }", "    axis (0,0,1)", "    oneSiteTotalForce on", "  }", "}"]
+        bl += ["abf {", "  name a0", "  colvars v0", "  fullSamples 1", "  outputFreq %d" % c["abf"]["F"], "  historyFreq %d" % c["abf"]["H"], "}"]
     for b, f in c["biases"]:
         bl += ["histogram {", "  name b%d" % b, "  colvars v0", "  outputFreq %d" % f, "}"]
+    if c.get("meta"):
+        bl += ["metadynamics {", "  name m0", "  colvars v0", "  hillWeight 0.125", "  hillWidth 1.0", "  newHillFrequency %d" % c["meta"]["h"],
+               "  outputFreq %d" % c["meta"]["F"], "  writeHillsTrajectory on", "  keepFreeEnergyFiles on", "}"]
     L = ["echo CASE %d" % k, "natoms 2", "temperature 300", "dt 1.0", "prefix c%ds0" % k, "restartfreq %d" % c["R"], "new", "capture"]
     if c["it0"]:
         L.append("setstep %d" % c["it0"])
@@ -1349,8 +1355,12 @@ def out_scenario(c, k):
             L += ["pos 1 0 0 %s" % hx(ev[1]), "step", "wlog"]
         elif ev[0] == "boundary":
             L.append("runboundary")
-    L += ["postrun", "wlog", "flush", "restartfreq 0", "echo END %d" % k]
+    L += ["postrun", "wlog", "gdump", "flush", "restartfreq 0", "echo END %d" % k]
     return L
+
+
+def calc_its_of(evs):
+    return [i for t, i in evs if t == "C"]
 
 
 def check_out_case(run, c, k, impl_lines, scratch, model):
@@ -1383,13 +1393,120 @@ def check_out_case(run, c, k, impl_lines, scratch, model):
             boundary = True
     evs.append(("E", it))
     last = it
-    line = "OUT %d %d %d %s %d %s" % (c["R"], c["it0"], len(c["biases"]), " ".join("%d %d" % (b, f) for b, f in c["biases"]), len(evs),
+    mb = list(c["biases"])
+    if c.get("meta"):
+        mb.append((100, c["meta"]["F"]))
+    if c.get("abf"):
+        mb.append((200, c["abf"]["F"]))
+    line = "OUT %d %d %d %s %d %s" % (c["R"], c["it0"], len(mb), " ".join("%d %d" % (b, f) for b, f in mb), len(evs),
                                     " ".join("%s %d" % e for e in evs))
     rc, mout, err = V.run_lines(model, [line])
     if rc != 0 or len(mout) != 1:
         run.mismatch("out-model", c, err[-300:], mout[:2])
         return 0
-    want = mout[0].split()
+    want_all = mout[0].split()
+    want = [w for w in want_all if not w.startswith("b100@") and not w.startswith("b200@")]
+    dedup_its = []
+    xs_by_it = {}
+    itx = c["it0"]
+    first, boundary = True, False
+    for ev in c["events"]:
+        if ev[0] == "step":
+            if first:
+                first = False
+            elif not boundary:
+                itx += 1
+            boundary = False
+            if itx not in xs_by_it:
+                dedup_its.append(itx)
+                xs_by_it[itx] = ev[1]
+        else:
+            boundary = True
+    if c.get("meta"):
+        # (a) the step-stamped free-energy files on disk are exactly the steps at which the model says the bias writes
+        stamps = sorted(int(f.split(".")[-2]) for f in os.listdir(scratch) if f.startswith("c%ds0." % k) and f.endswith(".pmf")
+                        and len(f.split(".")) == 3 and f.split(".")[-2].isdigit())
+        mw = sorted(set(int(w.split("@")[1]) for w in want_all if w.startswith("b100@")))
+        run.dist("oracle:meta-pmf-stamps")
+        if stamps != mw:
+            run.mismatch("outfiles-meta", c, stamps, mw)
+        F = c["meta"]["F"]
+        ow = sorted(set([i for i in calc_its_of(evs) if F and i > c["it0"] and i % F == 0] + [last]))
+        if stamps != ow:
+            run.violation("outfiles:meta-pmf-steps", "free-energy files stamped with the steps %s; outputFreq %d over the steps %d..%d and the end "
+                          "of the run give %s" % (stamps, F, c["it0"], last, ow), replay)
+        # (b) the hills trajectory left by the run: one record per deposited hill (C05: steps after the first that are
+        # multiples of newHillFrequency), stamped with its step, centred at the variable's value of that step
+        hp = os.path.join(scratch, "c%ds0.colvars.m0.hills.traj" % k)
+        recs = []
+        if os.path.exists(hp):
+            for ln in open(hp):
+                t = ln.split()
+                if t and not t[0].startswith("#"):
+                    recs.append((int(t[0]), float(t[1])))
+        # the last free-energy file against the tabulated hills energy at the end of the run: F = max(E) - E
+        gm = [l for l in impl_lines if l.startswith("GM m0 ")]
+        lastp = os.path.join(scratch, "c%ds0.%d.pmf" % (k, last))
+        if gm and os.path.exists(lastp):
+            en = [float.fromhex(q) for q in gm[-1].split("energy=")[1].split(",")]
+            fp = [float(ln.split()[1]) for ln in open(lastp) if ln.split() and not ln.startswith("#")]
+            mx = max(en)
+            wp = [mx - e_ for e_ in en]
+            run.dist("oracle:meta-pmf-vs-grid")
+            if len(fp) != len(wp) or any(abs(a - b) > 1e-12 * max(1.0, abs(mx)) for a, b in zip(fp, wp)):
+                run.violation("outfiles:meta-pmf-content", "the free-energy file of step %d differs from max(E) - E of the tabulated hills energy "
+                              "(first values %s vs %s)" % (last, fp[:5], wp[:5]), replay)
+        h = c["meta"]["h"]
+        wantrec = [(i, float(xs_by_it[i])) for i in dedup_its if i > c["it0"] and i % h == 0]
+        run.dist("oracle:hills-traj")
+        if [r_[0] for r_ in recs] != [w_[0] for w_ in wantrec]:
+            run.violation("outfiles:hills-traj-steps", "hills trajectory records at steps %s, hills are deposited at %s" %
+                          ([r_[0] for r_ in recs], [w_[0] for w_ in wantrec]), replay)
+        elif any(not close(a[1], b[1], OTOL) for a, b in zip(recs, wantrec)):
+            run.violation("outfiles:hills-traj-centres", "hills trajectory %s, deposited hills %s" % (recs[:6], wantrec[:6]), replay)
+    if c.get("abf"):
+        # the history files get one block per write at a multiple of historyFreq (not twice for one step)
+        H = c["abf"]["H"]
+        aw = [int(w.split("@")[1]) for w in want_all if w.startswith("b200@")]
+        hsteps = []
+        for i in aw:
+            if i % H == 0 and (not hsteps or hsteps[-1] != i):
+                hsteps.append(i)
+        cp = os.path.join(scratch, "c%ds0.hist.count" % k)
+        nblocks = 0
+        if os.path.exists(cp):
+            nblocks = sum(1 for ln in open(cp) if ln.strip() == "# 1")
+        run.dist("oracle:abf-history-blocks")
+        if nblocks != len(hsteps):
+            run.violation("outfiles:abf-history", "%d blocks in the ABF history file; outputFreq %d, historyFreq %d over steps %d..%d give writes at %s"
+                          % (nblocks, c["abf"]["F"], H, c["it0"], last, hsteps), replay)
+        # content of the final .count file: the samples are the steps whose total force could be attributed
+        cf = os.path.join(scratch, "c%ds0.count" % k)
+        if os.path.exists(cf):
+            tot = 0
+            for ln in open(cf):
+                t = ln.split()
+                if t and not t[0].startswith("#"):
+                    tot += int(float(t[1]))
+            # content against the internal grids at the writing step (the end of the run)
+            ga = [l for l in impl_lines if l.startswith("GA a0 ")]
+            if ga:
+                kv = dict(t.split("=", 1) for t in ga[-1].split()[2:])
+                smp = [int(q) for q in kv["samples"].split(",")]
+                grd = [float.fromhex(q) for q in kv["gradients"].split(",")]
+                fcount = [int(float(ln.split()[1])) for ln in open(cf) if ln.split() and not ln.startswith("#")]
+                gf = os.path.join(scratch, "c%ds0.grad" % k)
+                fgrad = [float(ln.split()[1]) for ln in open(gf) if ln.split() and not ln.startswith("#")] if os.path.exists(gf) else []
+                wgrad = [(g / n_ if n_ else 0.0) for g, n_ in zip(grd, smp)]
+                run.dist("oracle:abf-file-vs-grids")
+                if fcount != smp:
+                    run.violation("outfiles:abf-count-content", "the .count file %s differs from the stored counts %s" % (fcount, smp), replay)
+                elif len(fgrad) != len(wgrad) or any(not close(a, b) for a, b in zip(fgrad, wgrad)):
+                    run.violation("outfiles:abf-grad-content", "the .grad file %s differs from the stored mean forces %s" % (fgrad[:8], wgrad[:8]), replay)
+            nsteps = len([i for i in dedup_its if i > c["it0"]])
+            run.dist("oracle:abf-count-total")
+            if tot != nsteps:
+                run.violation("outfiles:abf-count", "the final .count file holds %d samples, %d steps after the first were sampled" % (tot, nsteps), replay)
     # ---- oracle: documented frequencies, final files describe the final step, nothing written twice for one calc
     def steps_of(kind):
         return [int(g.split("@")[1]) for g in got if g.split("@")[0] == kind]
@@ -1429,7 +1546,15 @@ def gen_out_case(r, tier):
             events += [["boundary"], list(last)]
         else:
             events.append(["step", V.dyadic(r, -8, 8, 2)])
-    return {"kind": "out", "R": R, "biases": biases, "it0": it0, "events": events}
+    c = {"kind": "out", "R": R, "biases": biases, "it0": it0, "events": events}
+    u = r.random()
+    if u < 0.35:
+        c["meta"] = {"h": r.choice([1, 2, 3]), "F": r.choice([0, 2, 3, 4])}
+    elif u < 0.6:
+        F = r.choice([1, 2, 3])
+        c["abf"] = {"F": F, "H": F * r.choice([1, 2, 3])}
+        c["biases"] = []
+    return c
 
 
 
